@@ -244,7 +244,7 @@ func bundleGen(args []string) error {
 		n = 1500
 	}
 	dests := []string{"plain", "rf", "bytewise", "counting"}
-	bodyLens := []int{0, 1, 22, 23, 24, 25, 254, 255, 256, 257, 1000}
+	bodyLens := []int{0, 1, 22, 23, 24, 25, 254, 255, 256, 257, 1000, 511, 512, 513, 1023, 1024, 1025, 4095, 4096, 4097}
 	for i := 1; i <= n; i++ {
 		b := emptyB()
 		b.Ver = []string{"b1", "b2"}[r.Intn(2)]
@@ -270,7 +270,7 @@ func bundleGen(args []string) error {
 				names[strings.ToLower(name)] = true
 				he := hent{N: ints([]byte(name))}
 				for v := 0; v <= r.Intn(3)/2; v++ {
-					he.Vs = append(he.Vs, ints([]byte(randValue(r, []int{0, 1, 5, 23, 24, 100, 255, 256}[r.Intn(8)]))))
+					he.Vs = append(he.Vs, ints([]byte(randValue(r, []int{0, 1, 5, 23, 24, 100, 255, 256, 511, 512, 513, 4096}[r.Intn(12)]))))
 				}
 				e.Hdrs = append(e.Hdrs, he)
 			}
